@@ -3,4 +3,4 @@ From Coq Require Import ExtrOcamlBasic.
 From OlaBase Require Import Bytes.
 From C02 Require Import Gen Model.
 Extraction Language OCaml.
-Extraction "model.ml" io_witness N.div_eucl cstep cstep_unfixed cquery internals live_blocks init_st.
+Extraction "model.ml" io_witness N.div_eucl cstep cstep_unfixed cquery internals live_blocks init_st pad_text width_after_insert.
